@@ -4,15 +4,15 @@
 # touched, so background sweeps that rebuild from /repo are not disturbed. Evidence and replay
 # files written by the mutated run are discarded (evidence restored from a copy).
 set -u
-scratch=/tmp/trymut-repo
+scratch=/tmp/trymut-repo-$$
 rm -rf $scratch; cp -a /repo $scratch || exit 2
 (cd $scratch && git apply "$1") || { echo "patch does not apply"; rm -rf $scratch; exit 2; }
 cd /verif
-cp evidence/$2.json /tmp/evidence-$2.keep 2>/dev/null
-ls replays > /tmp/replays-before-$2.txt
+cp evidence/$2.json /tmp/evidence-$2.keep.$$ 2>/dev/null
+ls replays > /tmp/replays-before-$2.$$.txt
 VERIF_REPO=$scratch VERIF_RUN_TIMEOUT_S=900 ./check "$2" "${3:-quick}" 2>&1 | grep -v '^{' | grep "verifsim: runs\|VIOLATION\|HARNESS\|detail\|KNOWN" | cut -c1-500
-[ -f /tmp/evidence-$2.keep ] && mv /tmp/evidence-$2.keep evidence/$2.json
-for f in $(ls replays); do grep -qx "$f" /tmp/replays-before-$2.txt || rm -f "replays/$f"; done
-rm -f /tmp/replays-before-$2.txt
+[ -f /tmp/evidence-$2.keep.$$ ] && mv /tmp/evidence-$2.keep.$$ evidence/$2.json
+for f in $(ls replays); do grep -qx "$f" /tmp/replays-before-$2.$$.txt || rm -f "replays/$f"; done
+rm -f /tmp/replays-before-$2.$$.txt
 h=$(echo -n $scratch | md5sum | cut -c1-8)
 rm -rf $scratch sim/bin/verifsim-$h sim/go-$h.mod sim/go-$h.sum
